@@ -111,6 +111,12 @@ gcm_make_key(const char *fam, int bits, gbuf *kd, gbuf *key, uint32_t kb, uint64
                 vc_input("key", key);
                 vc_output("key_data", kd);
                 r = vcall(need("%saes_gcm_pre_%d", api_pre(fam), bits), 2, a, &o);
+                if (!o.fault && !inplace && obj_reuse()) { /* precompute is idempotent: a second run on the same object */
+                        vc_begin();
+                        vc_input("key", key);
+                        vc_output("key_data", kd);
+                        r = vcall(need("%saes_gcm_pre_%d", api_pre(fam), bits), 2, a, &o);
+                }
         } else {
                 /* same family for precompute and cipher (C02 mechanism 2) */
                 static __thread uint8_t tmp[16 * 15] __attribute__((aligned(16)));
@@ -414,6 +420,13 @@ do_kexp(const cmd *c)
                 vc_output("enc", &enc);
                 vc_output("dec", &dec);
                 r = vcall(fn, 3, a, &o);
+                if (!o.fault && obj_reuse()) { /* expanding the same key again into the same buffers gives the same schedules */
+                        vc_begin();
+                        vc_input("key", &key);
+                        vc_output("enc", &enc);
+                        vc_output("dec", &dec);
+                        r = vcall(fn, 3, a, &o);
+                }
         }
         ev_begin("KeyExp");
         ev_str("fam", fam);
